@@ -37,8 +37,8 @@ COMPONENTS = {
 }
 PROBES = ["update_at_counter_9", "update_at_counter_0", "back_to_back_updates", "update_with_packets_in_flight",
           "three_wraparounds_between_updates", "reconnect", "sequence_sent_as_short", "two_pings_outstanding"]
-FAULT_KINDS = ["latency_jitter", "start_update_mid_burst", "reconnect"]
-SHRINK_KEYS = ["script"]
+FAULT_KINDS = ["latency_jitter", "start_update_mid_burst", "reconnect", "start_unreadable_during_request"]
+SHRINK_KEYS = ["script", "local"]
 
 
 def generate(streams, tier):
@@ -63,7 +63,17 @@ def generate(streams, tier):
                 script.append(["connect"])
         if rng.random() < 0.3:
             script.append(["wait", rng.randrange(0, 300)])
-    return {"script": script, "net_seed": rng.randrange(1 << 30), "draw_seed": rng.randrange(1 << 30),
+    # a local history on one sequencer, with outages: the start in force raises while it is read
+    local = []
+    for _ in range(rng.randrange(0, 60)):
+        r = rng.random()
+        if r < 0.6:
+            local.append(["next"])
+        elif r < 0.85:
+            local.append(["set", rng.choice([0, 1, 9, 240, 252, 253, 1756, rng.randrange(0, 70000)])])
+        else:
+            local.append(["next_during_outage"])
+    return {"script": script, "local": local, "net_seed": rng.randrange(1 << 30), "draw_seed": rng.randrange(1 << 30),
             "jitter": rng.choice([0, 5, 50, 400])}
 
 
@@ -269,12 +279,60 @@ class _Session:
         return events
 
 
+def run_local(plan, s, res, tr):
+    """One sequencer, no network: requests, updates and requests that fail because the start in force cannot
+    be read (injected fault).  Only numbers actually returned count towards n."""
+    from ..seams import SimFault
+    state = {"outage": False}
+
+    class ProbeStart(s.ss.SequenceStart):
+        def __init__(self, v):
+            self._v = v
+
+        @property
+        def value(self):
+            if state["outage"]:
+                raise SimFault("start value unavailable")
+            return self._v
+
+    seq = s.PacketSequencer(ProbeStart(0))
+    n, start = 0, 0
+    for i, op in enumerate(plan.get("local", [])):
+        if op[0] == "set":
+            seq.set_sequence_start(ProbeStart(op[1]))
+            start = op[1]
+            tr.ev("local", "set", op[1])
+        elif op[0] == "next":
+            got = seq.next_sequence()
+            want = start + n % 10
+            tr.ev("local", "next", got)
+            if got != want:
+                s.fail("sequence-value", "local", f"local history step {i}: request #{n} returned {got}, start in force {start} + "
+                       f"({n} mod 10) = {want} (history {plan['local'][:i + 1][-8:]})")
+                return
+            n += 1
+        else:
+            state["outage"] = True
+            try:
+                seq.next_sequence()
+                raised = False
+            except SimFault:
+                raised = True
+            finally:
+                state["outage"] = False
+            res.count("fault.start_unreadable_during_request")
+            tr.ev("local", "outage", raised)
+            # whether the failed request raised or not, it returned no number: n does not advance
+
+
 def execute(plan, env):
     res = Result()
     tr = Trace(keep=env.keep_trace)
     s = _Session(plan, env, res, tr)
     try:
-        s.run()
+        run_local(plan, s, res, tr)
+        if res.violation is None:
+            s.run()
     except Exception as e:
         if res.violation is None:
             res.violation = {"kind": "exception", "signature": f"C13|exception|{type(e).__name__}",
